@@ -515,6 +515,18 @@ fn policy_table() -> Vec<String> {
     rows
 }
 
+/// runs one case in its own thread; a case that does not finish within 60 s is a hang of the code under test (data)
+fn guarded(label: String, f: impl FnOnce() -> String + Send + 'static) -> String {
+    let (tx, rx) = std::sync::mpsc::channel();
+    std::thread::spawn(move || {
+        let _ = tx.send(f());
+    });
+    match rx.recv_timeout(std::time::Duration::from_secs(60)) {
+        Ok(s) => s,
+        Err(_) => format!("{{\"ev\":\"stuck\",\"fmt\":\"\",\"cap\":0,\"writing\":{},\"what\":\"{}\"}}", label.starts_with("write"), label),
+    }
+}
+
 pub fn cmd_long(out: &str, _seed: u64, thorough: bool) {
     let mut f = std::io::BufWriter::new(std::fs::File::create(out).unwrap());
     let mut cases = 0usize;
@@ -528,7 +540,8 @@ pub fn cmd_long(out: &str, _seed: u64, thorough: bool) {
                             continue; // FASTA knows no error after the first record
                         }
                         for mode in ["next", "set"] {
-                            let line = if fmt == "fasta" { run_fasta(fmt, n, cap, crlf, bad, mode, (0, 0, 0)) } else { run_fastq(fmt, n, cap, crlf, bad, mode, (0, 0, 0)) };
+                            let (fm, md) = (fmt.to_string(), mode.to_string());
+                            let line = guarded(format!("long {} n={} cap={} {}", fmt, n, cap, mode), move || if fm == "fasta" { run_fasta(&fm, n, cap, crlf, bad, &md, (0, 0, 0)) } else { run_fastq(&fm, n, cap, crlf, bad, &md, (0, 0, 0)) });
                             writeln!(f, "{}", line).unwrap();
                             cases += 1;
                         }
@@ -539,7 +552,8 @@ pub fn cmd_long(out: &str, _seed: u64, thorough: bool) {
     }
     // one record set that holds more than 65 535 records (a buffer of 4 MiB)
     for fmt in ["fasta", "fastq"] {
-        let line = if fmt == "fasta" { run_fasta(fmt, 70000, 4 << 20, false, false, "set", (0, 0, 0)) } else { run_fastq(fmt, 70000, 4 << 20, false, true, "set", (0, 0, 0)) };
+        let fm = fmt.to_string();
+        let line = guarded(format!("long {} one big set", fmt), move || if fm == "fasta" { run_fasta(&fm, 70000, 4 << 20, false, false, "set", (0, 0, 0)) } else { run_fastq(&fm, 70000, 4 << 20, false, true, "set", (0, 0, 0)) });
         writeln!(f, "{}", line).unwrap();
         cases += 1;
     }
@@ -548,7 +562,8 @@ pub fn cmd_long(out: &str, _seed: u64, thorough: bool) {
     for fmt in ["fasta", "fastq"] {
         for src in [(100usize, 2usize, 0usize), (0, 0, 300), (7, 3, 0)] {
             for mode in ["next", "set"] {
-                let line = if fmt == "fasta" { run_fasta(fmt, 8000, 65536, false, false, mode, src) } else { run_fastq(fmt, 8000, 65536, false, true, mode, src) };
+                let (fm, md) = (fmt.to_string(), mode.to_string());
+                let line = guarded(format!("long {} slow source {:?} {}", fmt, src, mode), move || if fm == "fasta" { run_fasta(&fm, 8000, 65536, false, false, &md, src) } else { run_fastq(&fm, 8000, 65536, false, true, &md, src) });
                 writeln!(f, "{}", line).unwrap();
                 cases += 1;
             }
@@ -560,23 +575,29 @@ pub fn cmd_long(out: &str, _seed: u64, thorough: bool) {
         for cap in [64usize, 65536] {
             for crlf in [false, true] {
                 for via_set in [false, true] {
-                    writeln!(f, "{}", giant_fasta(m, w, cap, crlf, via_set, 0)).unwrap();
+                    writeln!(f, "{}", guarded(format!("giant fasta m={} w={} cap={}", m, w, cap), move || giant_fasta(m, w, cap, crlf, via_set, 0))).unwrap();
                     cases += 1;
                     if m == 1 {
-                        writeln!(f, "{}", giant_fastq(w, cap, crlf, via_set, 0)).unwrap();
+                        writeln!(f, "{}", guarded(format!("giant fastq w={} cap={}", w, cap), move || giant_fastq(w, cap, crlf, via_set, 0))).unwrap();
                         cases += 1;
                     }
                     if m == 300 {
                         // short and long lines alternating (60 / 6000 bytes)
-                        writeln!(f, "{}", giant_fasta(40, 6000, cap, crlf, via_set, 60)).unwrap();
+                        writeln!(f, "{}", guarded("giant fasta alternating".into(), move || giant_fasta(40, 6000, cap, crlf, via_set, 60))).unwrap();
                         // sequence and quality lengths that differ by a multiple of 2^16
-                        writeln!(f, "{}", giant_fastq(100, cap, crlf, via_set, 65536)).unwrap();
-                        writeln!(f, "{}", giant_fastq(7, cap, crlf, via_set, 196608)).unwrap();
+                        writeln!(f, "{}", guarded("giant fastq unequal".into(), move || giant_fastq(100, cap, crlf, via_set, 65536))).unwrap();
+                        writeln!(f, "{}", guarded("giant fastq unequal".into(), move || giant_fastq(7, cap, crlf, via_set, 196608))).unwrap();
                         cases += 3;
                     }
                 }
             }
         }
+    }
+    // records of 9 MiB: the default policy has to grow the buffer beyond 8 MiB, where it stops doubling
+    for cap in [65536usize, 8 << 20] {
+        writeln!(f, "{}", guarded(format!("giant fasta 9 MiB cap={}", cap), move || giant_fasta(1, 9 << 20, cap, false, false, 0))).unwrap();
+        writeln!(f, "{}", guarded(format!("giant fastq 9 MiB cap={}", cap), move || giant_fastq(9 << 20, cap, false, false, 0))).unwrap();
+        cases += 2;
     }
     {
         let rows = std::panic::catch_unwind(policy_table);
@@ -590,20 +611,22 @@ pub fn cmd_long(out: &str, _seed: u64, thorough: bool) {
     for len in if thorough { vec![70000usize, 131072, 200001] } else { vec![70000usize, 131072] } {
         for w in [255usize, 256, 257, 4096, 65535, 65536, 65537] {
             for how in ["write_wrap", "owned_wrap", "iter", "iter_uneven"] {
-                writeln!(f, "{}", long_write(len, w, how, 0)).unwrap();
+                writeln!(f, "{}", guarded(format!("write {} len={} w={}", how, len, w), move || long_write(len, w, how, 0))).unwrap();
                 cases += 1;
             }
         }
     }
     // unwrapped writing from uneven chunks; header lines of 254..257 and around 65 536 bytes through every entry point
-    writeln!(f, "{}", long_write(70000, 0, "seq_iter_uneven", 0)).unwrap();
+    writeln!(f, "{}", guarded("write seq_iter_uneven".into(), move || long_write(70000, 0, "seq_iter_uneven", 0))).unwrap();
     cases += 1;
     for headlen in [253usize, 254, 255, 256, 257, 65535, 65536, 65537] {
         for how in ["write_wrap", "owned_wrap", "owned_plain", "write_to", "iter"] {
-            writeln!(f, "{}", long_write(50, if how == "owned_plain" || how == "write_to" { 0 } else { 20 }, how, headlen)).unwrap();
+            writeln!(f, "{}", guarded(format!("write {} headlen={}", how, headlen), move || long_write(50, if how == "owned_plain" || how == "write_to" { 0 } else { 20 }, how, headlen))).unwrap();
             cases += 1;
         }
     }
     f.flush().unwrap();
     println!("{{\"cases\":{}}}", cases);
+    // (threads of cases that hang are still running)
+    std::process::exit(0);
 }
